@@ -169,6 +169,32 @@ var scripts = []script{
 		c.Close()
 		l.Close()
 	}},
+	{"peer aborts (linger 0): writes and reads fail at once", func(e *env, out func(string, ...any)) {
+		l, _ := e.listen(e.addr(0))
+		fire, wait := e.signal()
+		fire2, wait2 := e.signal()
+		e.spawn(func() {
+			c, _ := l.Accept()
+			wait()
+			e.sleep(50 * time.Millisecond)
+			n, err := c.Write([]byte("x"))
+			out("srv write %d %s", n, class(err))
+			n, err = c.Write([]byte("y"))
+			out("srv write %d %s", n, class(err))
+			n, err = c.Read(make([]byte, 4))
+			out("srv read %d %s", n, class(err))
+			c.Close()
+			fire2()
+		})
+		c, _ := e.dial(listenAddr(l), time.Second)
+		e.sleep(20 * time.Millisecond)
+		type lingerer interface{ SetLinger(int) error }
+		c.(lingerer).SetLinger(0)
+		c.Close()
+		fire()
+		wait2()
+		l.Close()
+	}},
 	{"operations on a locally closed connection", func(e *env, out func(string, ...any)) {
 		l, _ := e.listen(e.addr(0))
 		e.spawn(func() { c, _ := l.Accept(); e.sleep(200 * time.Millisecond); c.Close() })
